@@ -66,11 +66,14 @@ LOADNOTE = ("Trusted: Coq kernel, renderers, generator; int()/float() parsing re
 CLAIMS["C06"] = (
     "Proof: load_is_spec - each of the three separately written mode interpreters computes the same mode-independent "
     "specification and raises LoadError only, for every type, datum and coercion mode (induction on the type with one "
-    "specification lemma per loop); hence C06_modes_agree and failure-in-one-is-failure-in-all. Tied to the code by "
+    "specification lemma per loop); hence C06_modes_agree and failure-in-one-is-failure-in-all; "
+    "C06_first_error_is_among_all_errors - every leaf of the FIRST error tree is a leaf of the ALL tree, for every type "
+    "and datum (and C06_disable_error_is_among_all_errors for union-free types). Tied to the code by "
     "running every generated case under DISABLE/FIRST/ALL on library and model (complete error trees compared) plus a "
     "direct three-way comparison of the library's modes (acceptance, value, single error among ALL's errors).",
-    LOADNOTE + "Partial: 'the single error under DISABLE/FIRST is among those collected under ALL' is checked by the "
-    "direct oracle, not proved; model dumpers of models are covered by C03's check. One defect repaired (tuple from "
+    LOADNOTE + "Partial: under DISABLE a failing union raises one plain LoadError that stands for all cases, so the "
+    "'among ALL's errors' theorem for DISABLE is stated for union-free types (the direct oracle covers the rest); "
+    "model dumpers of models are covered by C03's check. One defect repaired (tuple from "
     "one-shot iterator).", "DESIGN.md section 5 C06", TECH)
 CLAIMS["C04"] = (
     "Proof: C04_only_load_error - for every type of the fragment, datum, debug mode and coercion mode the outcome is a "
